@@ -82,3 +82,74 @@ fn c05_tables_canary() {
     assert!(r.is_err(), "canary: must be reported as failing");
     std::mem::forget(r);
 }
+
+// ---------------------------------------------------------------- C01.b reader-side lookup is complete
+// For EVERY hash value of the name (hash_string is a symbolic function here: home slot, both name hashes) and every
+// 4-slot table: an entry that carries the name's hashes, is valid and is reachable from the home slot by circular
+// linear probing without crossing a never-used slot IS found (so a file the builder placed after a wrap-around
+// is not lost), and the first such entry is the one returned.
+static mut HV: [u32; 3] = [0; 3];
+fn hs_stub(_name: &str, hash_type: u32) -> u32 {
+    unsafe { HV[((hash_type >> 8) as usize) % 3] }
+}
+
+#[kani::proof]
+#[kani::unwind(8)]
+#[kani::stub(std::fmt::format, vio::fmt_stub)]
+#[kani::stub(crate::crypto::hash_string, hs_stub)]
+fn c01b_hash_find_complete() {
+    unsafe { HV = kani::any(); }
+    let (home, na, nb) = unsafe { ((HV[0] as usize) & 3, HV[1], HV[2]) };
+    let mut t = HashTable::new(4).unwrap();
+    let mut i = 0;
+    while i < 4 {
+        *t.get_mut(i).unwrap() = HashEntry { name_1: kani::any(), name_2: kani::any(), locale: 0, platform: kani::any(), block_index: kani::any() };
+        i += 1;
+    }
+    // j = distance (0..=3) of the wanted entry from the home slot, going round the table end
+    let d: usize = kani::any();
+    kani::assume(d < 4);
+    let j = (home + d) & 3;
+    {
+        let e = t.get(j).unwrap();
+        kani::assume(e.name_1 == na && e.name_2 == nb && e.is_valid());
+    }
+    let mut k = 0;
+    while k < 4 {
+        if k < d {
+            let e = t.get((home + k) & 3).unwrap();
+            // slots probed before it: occupied or deleted (not never-used), and not a match themselves
+            kani::assume(!e.is_empty() && !(e.name_1 == na && e.name_2 == nb));
+        }
+        k += 1;
+    }
+    let r = t.find_file("a", kani::any());
+    kani::cover!(r.is_some() && j < home, "found after wrapping round the table end");
+    kani::cover!(r.is_some() && d == 3);
+    assert!(r.is_some(), "a file reachable by linear probing (possibly across the table end) is reported as not found");
+    let (idx, _e) = r.unwrap();
+    assert!(idx == j, "lookup resolved the name to another slot than the first matching one");
+    std::mem::forget(t);
+}
+
+/// a name whose hashes match no valid entry is not found (it never resolves to another file's entry)
+#[kani::proof]
+#[kani::unwind(8)]
+#[kani::stub(std::fmt::format, vio::fmt_stub)]
+#[kani::stub(crate::crypto::hash_string, hs_stub)]
+fn c01b_hash_find_absent() {
+    unsafe { HV = kani::any(); }
+    let (na, nb) = unsafe { (HV[1], HV[2]) };
+    let mut t = HashTable::new(4).unwrap();
+    let mut i = 0;
+    while i < 4 {
+        let e = HashEntry { name_1: kani::any(), name_2: kani::any(), locale: kani::any(), platform: kani::any(), block_index: kani::any() };
+        kani::assume(!(e.name_1 == na && e.name_2 == nb && e.is_valid()));
+        *t.get_mut(i).unwrap() = e;
+        i += 1;
+    }
+    let r = t.find_file("a", kani::any());
+    kani::cover!(r.is_none());
+    assert!(r.is_none(), "a name that is in no slot resolves to some entry");
+    std::mem::forget(t);
+}
